@@ -608,7 +608,7 @@ loop:
 
 var (
 	unknownCSIRe  = regexp.MustCompile(`^\x1b\[[\x30-\x3f]*[\x20-\x2f]*[\x40-\x7e]`)
-	mouseSGRRegex = regexp.MustCompile(`(\d+);(\d+);(\d+)([Mm])`)
+	mouseSGRRegex = regexp.MustCompile(`^(\d+);(\d+);(\d+)([Mm])`)
 )
 
 func detectOneMsg(b []byte, canHaveMoreData bool) (w int, msg Msg) {
